@@ -17,9 +17,9 @@ theorem C01_every_parsed_expression_nodated (s : String) (e : Expr) (h : Parser.
   C01_schedule_refines_spec_nodated ctx e d (OH.Proofs.SynTotal.parse_string_ok_wf s e h) h1 h2 hnd
 
 /-- **C01 for every parsed expression whose dated ranges are in the rule-level class** `exprDatedPlain`
-(every dated range with a defined meaning and day offsets within ±92 000 000 days between two fixed yearless dates,
-±30 000 000 days from a start with a year to a yearless end, ±300 000 days when a bound is Easter, any offsets
-between two bounds with a year — whatever the size of the
+(every dated range with a defined meaning and: ANY day offsets between two fixed yearless dates and between two
+bounds with a year, ±30 000 000 days from a start with a year to a yearless end, ±300 000 days when a bound is
+Easter — whatever the size of the
 shift relative to a year, since the pairing windows are centred on the year of `d - day offset`) -/
 theorem C01_every_parsed_expression_plain (s : String) (e : Expr) (h : Parser.parse s = .ok e)
     (hpl : exprDatedPlain e = true) (ctx : Ctx) (d : Int) (h1 : dateStart ≤ d) (h2 : d < dateEnd) :
